@@ -386,7 +386,7 @@ def c04(c):
 
 C11_THEOREMS = ["Ctl.hSolve_protocol", "Ctl.rk23Solve_inv", "Ctl.rk4Solve_inv", "Ctl.hNextStep_le_hmax",
                 "Ctl.hIter_budget_irrelevant", "Ctl.startMeter_first_step", "BdfCtl.limits_le_hmax",
-                "HinitBound.hinit_le_hmax", "Ctl.startMeter_auto_le_hmax", "RadauCtl.c11_radau_steps", "RadauCtl.pass_rinv", "RadauCtl.params_ok"]
+                "HinitBound.hinit_le_hmax", "Ctl.startMeter_auto_le_hmax", "Ctl.startMeter_given_le_hmax", "RadauCtl.c11_radau_steps", "RadauCtl.pass_rinv", "RadauCtl.params_ok"]
 
 
 def c11(c):
